@@ -5,6 +5,8 @@
 package main
 
 import (
+	"bufio"
+	"encoding/json"
 	"flag"
 	"fmt"
 	"os"
@@ -625,6 +627,243 @@ func observe(c *Case) *Obs {
 	return o
 }
 
+
+// ---------------------------------------------------------------- exhaustive family with in-harness oracles
+
+// maskOracle checks an observation of a mask-family graph (n <= 6) against
+// textbook algorithms on bit sets.  It returns "" or a failure class.
+func maskOracle(n int, mask uint64, o *Obs) string {
+	var out [6]uint32
+	for i := 0; i < n; i++ {
+		out[i] = uint32(mask>>(uint(i*n))) & (1<<uint(n) - 1)
+	}
+	// reachability (paths of length >= 1) by Warshall
+	reach := out
+	for k := 0; k < n; k++ {
+		for i := 0; i < n; i++ {
+			if reach[i]>>uint(k)&1 == 1 {
+				reach[i] |= reach[k]
+			}
+		}
+	}
+	cyclic := false
+	for i := 0; i < n; i++ {
+		if reach[i]>>uint(i)&1 == 1 {
+			cyclic = true
+		}
+	}
+	if cyclic {
+		if o.V != "circle" || !o.Agree {
+			return "verdict"
+		}
+		// girth by BFS levels on bit sets
+		girth := n + 1
+		for s := 0; s < n; s++ {
+			seen := uint32(0)
+			frontier := uint32(1) << uint(s)
+			for d := 1; d <= n; d++ {
+				var next uint32
+				for u := 0; u < n; u++ {
+					if frontier>>uint(u)&1 == 1 {
+						next |= out[u]
+					}
+				}
+				if next>>uint(s)&1 == 1 {
+					if d < girth {
+						girth = d
+					}
+					break
+				}
+				next &^= seen
+				seen |= next
+				frontier = next
+				if frontier == 0 {
+					break
+				}
+			}
+		}
+		c := o.Circle
+		if len(c) != girth || o.CLen2 != girth {
+			return "cycle-not-minimal"
+		}
+		for i, u := range c {
+			v := c[(i+1)%len(c)]
+			if u < 0 || u >= n || v < 0 || v >= n || out[u]>>uint(v)&1 == 0 {
+				return "cycle-not-real"
+			}
+		}
+		if !o.R2Same {
+			return "reverse"
+		}
+		return ""
+	}
+	if o.V != "ok" || !o.Agree {
+		return "verdict"
+	}
+	var in [6]uint32
+	for i := 0; i < n; i++ {
+		for j := 0; j < n; j++ {
+			if out[i]>>uint(j)&1 == 1 {
+				in[j] |= 1 << uint(i)
+			}
+		}
+	}
+	// longest-path layers by relaxation
+	var layer [6]int
+	for round := 0; round < n; round++ {
+		for v := 0; v < n; v++ {
+			for u := 0; u < n; u++ {
+				if in[v]>>uint(u)&1 == 1 && layer[u]+1 > layer[v] {
+					layer[v] = layer[u] + 1
+				}
+			}
+		}
+	}
+	nlayer := 0
+	for v := 0; v < n; v++ {
+		if layer[v]+1 > nlayer {
+			nlayer = layer[v] + 1
+		}
+	}
+	if o.Nlayer != nlayer || o.W != nlayer || len(o.Layers) != nlayer || len(o.Nodes) != n {
+		return "layers"
+	}
+	for i, l := range o.Layers {
+		for _, v := range l {
+			if v < 0 || v >= n || layer[v] != i {
+				return "layers"
+			}
+		}
+	}
+	bits := func(l []int) uint32 {
+		var b uint32
+		for _, x := range l {
+			b |= 1 << uint(x)
+		}
+		return b
+	}
+	ncrit, nedge := 0, 0
+	pos := map[[2]int]bool{}
+	for _, nd := range o.Nodes {
+		u := nd.Name
+		var rin uint32
+		for w := 0; w < n; w++ {
+			if reach[w]>>uint(u)&1 == 1 {
+				rin |= 1 << uint(w)
+			}
+		}
+		if bits(nd.AO) != reach[u] || bits(nd.AI) != rin || bits(nd.Outs) != out[u] || bits(nd.Ins) != in[u] {
+			return "closure"
+		}
+		var crit uint32
+		for v := 0; v < n; v++ {
+			if out[u]>>uint(v)&1 == 0 {
+				continue
+			}
+			nedge++
+			bridged := false
+			for w := 0; w < n; w++ {
+				if w != v && reach[u]>>uint(w)&1 == 1 && reach[w]>>uint(v)&1 == 1 {
+					bridged = true
+				}
+			}
+			if !bridged {
+				crit |= 1 << uint(v)
+				ncrit++
+			}
+		}
+		if bits(nd.CO) != crit || bits(nd.VCO) != crit {
+			return "crit"
+		}
+		if nd.X < 0 || nd.X >= o.W || nd.Y < 0 || nd.Y >= o.H {
+			return "layout-bounds"
+		}
+		if pos[[2]int{nd.X, nd.Y}] {
+			return "layout-overlap"
+		}
+		pos[[2]int{nd.X, nd.Y}] = true
+	}
+	for _, nd := range o.Nodes { // crit ins are the transpose of crit outs
+		var want uint32
+		for _, other := range o.Nodes {
+			if bits(other.CO)>>uint(nd.Name)&1 == 1 {
+				want |= 1 << uint(other.Name)
+			}
+		}
+		if bits(nd.CI) != want || bits(nd.VCI) != want {
+			return "crit"
+		}
+		for _, other := range o.Nodes {
+			if out[nd.Name]>>uint(other.Name)&1 == 1 && !(nd.X < other.X) {
+				return "layout-order"
+			}
+		}
+	}
+	if o.Ncrit != ncrit || o.Nedge != nedge {
+		return "counts"
+	}
+	if !o.R2Same || !o.MapRev2 {
+		return "reverse"
+	}
+	return ""
+}
+
+// exhaust runs every graph on n nodes, checks it with maskOracle, and prints
+// the failing cases, every acyclic graph and a seeded 1/sample of the rest.
+func exhaust(n int, seed uint64, sample int, workers int, out *hx.Out) {
+	total := uint64(1) << uint(n*n)
+	type res struct {
+		cases []Case
+		count uint64
+		fail  uint64
+	}
+	ch := make(chan res, workers)
+	chunk := total / uint64(workers)
+	for w := 0; w < workers; w++ {
+		lo := uint64(w) * chunk
+		hi := lo + chunk
+		if w == workers-1 {
+			hi = total
+		}
+		go func(lo, hi uint64) {
+			var r res
+			for mask := lo; mask < hi; mask++ {
+				c := Case{Stream: fmt.Sprintf("all-%d-nodes", n), Fam: "m", N: n, Mask: mask}
+				o := observe(&c)
+				c.Obs = o
+				r.count++
+				why := maskOracle(n, mask, o)
+				// splitmix-style hash of (seed, mask) decides the sample
+				z := (mask + seed*0x9e3779b97f4a7c15) * 0xbf58476d1ce4e5b9
+				z ^= z >> 31
+				keep := why != "" || o.V == "ok" || z%uint64(sample) == 0
+				if why != "" {
+					r.fail++
+					o.Msg = "harness-oracle: " + why
+				}
+				if keep && (why == "" || r.fail <= 200) {
+					r.cases = append(r.cases, c)
+				}
+			}
+			ch <- r
+		}(lo, hi)
+	}
+	var all []Case
+	var count, fail uint64
+	for w := 0; w < workers; w++ {
+		r := <-ch
+		all = append(all, r.cases...)
+		count += r.count
+		fail += r.fail
+	}
+	sort.Slice(all, func(i, j int) bool { return all[i].Mask < all[j].Mask })
+	for i := range all {
+		all[i].I = i
+		out.Emit(&all[i])
+	}
+	out.Emit(map[string]interface{}{"summary": true, "n": n, "graphs": count, "oracle_failures": fail, "emitted": len(all)})
+}
+
 func runCase(c *Case, timeout time.Duration) {
 	done := make(chan *Obs, 1)
 	go func() {
@@ -653,9 +892,45 @@ func main() {
 	from := flag.Int("from", 0, "first case (child)")
 	mem := flag.Uint64("mem", 2<<30, "address-space limit of the child")
 	tmo := flag.Duration("timeout", 20*time.Second, "per-case limit")
+	casesFile := flag.String("cases", "", "run the cases of this JSON-lines file instead of generating")
+	ex := flag.Int("exhaust", 0, "run every graph on this many nodes against the in-harness oracles")
+	sample := flag.Int("sample", 2000, "exhaust: emit 1 of this many cyclic graphs")
+	workers := flag.Int("workers", 8, "exhaust: goroutines")
 	flag.Parse()
 
-	cs := genCases(*seed, *n, *n4, *big)
+	if *ex > 0 {
+		if *ex > 5 {
+			fmt.Fprintln(os.Stderr, "exhaust: at most 5 nodes")
+			os.Exit(2)
+		}
+		exhaust(*ex, *seed, *sample, *workers, hx.NewOut(os.Stdout))
+		return
+	}
+
+	var cs []Case
+	if *casesFile != "" {
+		// replay / shrink mode: the cases are given, one JSON object per line
+		f, err := os.Open(*casesFile)
+		if err != nil {
+			fmt.Fprintln(os.Stderr, err)
+			os.Exit(2)
+		}
+		sc := bufio.NewScanner(f)
+		sc.Buffer(make([]byte, 1<<20), 1<<28)
+		for sc.Scan() {
+			var c Case
+			if err := json.Unmarshal(sc.Bytes(), &c); err != nil {
+				fmt.Fprintln(os.Stderr, "bad case:", err)
+				os.Exit(2)
+			}
+			c.Obs = nil
+			c.I = len(cs)
+			cs = append(cs, c)
+		}
+		f.Close()
+	} else {
+		cs = genCases(*seed, *n, *n4, *big)
+	}
 	out := hx.NewOut(os.Stdout)
 	if *child {
 		hx.LimitMemory(*mem)
@@ -666,7 +941,8 @@ func main() {
 		return
 	}
 	args := []string{"-seed", strconv.FormatUint(*seed, 10), "-n", strconv.Itoa(*n),
-		"-n4=" + strconv.FormatBool(*n4), "-big=" + strconv.FormatBool(*big), "-timeout", tmo.String()}
+		"-n4=" + strconv.FormatBool(*n4), "-big=" + strconv.FormatBool(*big), "-timeout", tmo.String(),
+		"-cases", *casesFile}
 	err := hx.RunIsolated(len(cs), args, *mem,
 		func(i int, raw []byte) { os.Stdout.Write(append(raw, '\n')) },
 		func(i int, why string) {
